@@ -2,6 +2,7 @@ package main
 
 import (
 	"fmt"
+	"go/types"
 	"sort"
 	"strconv"
 	"strings"
@@ -34,10 +35,27 @@ type SMT struct {
 	funs     map[string]string // declared uninterpreted function name -> signature
 	sorts    map[string]string // const name -> sort (for model reading)
 	axioms   map[string]bool
+	typeIDs  map[string]int // type string -> id (also used as interface tags)
+	ptrTypes []types.Type   // pointer-to-struct types numbered so far (for interface disjointness)
+}
+
+// typeIDOf numbers types; the number of a pointer type *T is the interface tag of a boxed *T
+// and the dynamic type (dyntype) of every non-nil reference to a T.
+func (m *SMT) typeIDOf(t types.Type) int {
+	k := types.TypeString(t, nil)
+	if id, ok := m.typeIDs[k]; ok {
+		return id
+	}
+	id := len(m.typeIDs) + 1
+	m.typeIDs[k] = id
+	if pt, ok := t.(*types.Pointer); ok && structOf(pt.Elem()) != nil {
+		m.ptrTypes = append(m.ptrTypes, t)
+	}
+	return id
 }
 
 func newSMT() *SMT {
-	return &SMT{strlits: map[string]string{}, funs: map[string]string{}, sorts: map[string]string{}, axioms: map[string]bool{}}
+	return &SMT{strlits: map[string]string{}, funs: map[string]string{}, sorts: map[string]string{}, axioms: map[string]bool{}, typeIDs: map[string]int{}}
 }
 
 func sym(s string) string {
@@ -151,6 +169,11 @@ func (m *SMT) prelude() string {
 	// references: base objects, struct fields and slice elements nested in them, boxed scalars
 	b.WriteString("(declare-datatypes ((Ref 0)) (((base (rid Int)) (fld (fbase Ref) (fidx Int)) (elem (ebase Ref) (eidx Int)) (boxi (ubi Int)) (boxs (ubs Str)) (boxb (ubb Bool)) (boxr (ubr Real)))))\n")
 	b.WriteString("(define-fun nilref () Ref (base 0))\n")
+	b.WriteString("(declare-fun dyntype (Ref) Int)\n")
+	// rootid: the allocation id of the base object a reference lives in. Allocations of the
+	// activation under proof get strictly decreasing negative ids; every reference that is
+	// read, received or returned at some point refers to an object that exists at that point.
+	b.WriteString("(define-fun-rec rootid ((r Ref)) Int (ite ((_ is base) r) (rid r) (ite ((_ is fld) r) (rootid (fbase r)) (ite ((_ is elem) r) (rootid (ebase r)) 0))))\n")
 	return b.String()
 }
 
